@@ -319,3 +319,47 @@ def shrink_case(ctx, ds, text, optimize, listed_quirks, want, budget=250):
                     tab["rows"] = keep
                 j -= 1
     return ds, text
+
+
+# ---------------------------------------------------------------------------------------------
+# C17: parse -> Request.String() -> parse
+
+def run_reprint_batches(ctx, v, batches, listed_quirks):
+    """every request is parsed by the implementation, serialised with Request.String(), and the
+    serialised text is evaluated again (same parse mode); its answer must satisfy the specification
+    of the ORIGINAL request.  The model's own serialisation must equal the implementation's text."""
+    lines, cases = build_lines(batches)
+    scratch = os.path.join(common.BUILD, "scratch-%d" % os.getpid())
+    impl1 = common.run_impl(ctx["binary"], lines, scratch)
+    model = common.run_model(ctx["schema_path"], lines)
+    # second pass: the reprinted text
+    lines2 = []
+    for l in lines:
+        if l.get("op") == "dataset":
+            lines2.append(l)
+            continue
+        r = impl1.get(l["id"]) or {}
+        rp = r.get("reprint")
+        if not rp or r.get("crash"):
+            continue
+        lines2.append({"op": "query", "id": l["id"], "text": rp, "optimize": l["optimize"]})
+    impl2 = common.run_impl(ctx["binary"], lines2, scratch)
+    for cid, case in cases.items():
+        m = model.get(cid)
+        r1 = impl1.get(cid) or {}
+        if m is None or m.get("parse") != "ok" or m.get("kind") not in ("data", "stats"):
+            v.stats["evaluated"] += 1
+            v.stats["unsupported"] += 1
+            continue
+        rp = r1.get("reprint")
+        if not rp:
+            v.stats["evaluated"] += 1
+            v.corr_broken.append((case, "no serialised request from the implementation: %s" % str(r1)[:200]))
+            continue
+        case2 = dict(case, extra=dict(case.get("extra") or {}, reprint=rp, original=case["text"]), has_header_row=has_header_row(rp))
+        before = len(v.violations) + len(v.corr_broken)
+        evaluate_case(v, case2, impl2.get(cid), m, listed_quirks)
+        v.bump("reprint_checked")
+        mp = m.get("reprint")
+        if mp is not None and mp != rp and len(v.violations) + len(v.corr_broken) == before:
+            v.corr_broken.append((case2, "Request.String differs: impl %r model %r" % (rp, mp)))
